@@ -446,6 +446,7 @@ func (w *world) spawn(k int) {
 			sr.failAt = -1
 			if sr.failed {
 				w.st.Inc("probe.stream_read_fault_fired")
+				w.st.Inc("fired.transient_read_error_of_caller_stream")
 				origin += "+transient-read-fault-at-first-read"
 				if pan == "" && ferr == nil {
 					w.o.Fail("read-fault-swallowed", "bytes-from-reader", "the stream of a stream-backed bytes node failed during AsBytes, which returned %d of %d bytes and a nil error", len(fb), len(b))
